@@ -324,4 +324,6 @@ pub struct M<'x, 'd> {
 mod rules;
 #[path = "opmutate_ctx.rs"]
 mod ctx;
+#[path = "opmutate_copy.rs"]
+mod copy;
 pub use rules::{mutate, mutate_neutral, mutate_with, MUTATORS};
